@@ -287,7 +287,8 @@ UNARY24 = None
 
 def cases(tier, seed):
     out = []
-    for shape in SHAPES:
+    shapes = SHAPES + ([(2, 3, 2), (3, 3), (4, 2), (2, 4), (1, 1, 1), (8,), (2, 2, 1)] if tier == "thorough" else [])
+    for shape in shapes:
         for var in VARIANTS:
             if var in ("T", "F") and len(shape) < 2:
                 continue
